@@ -1031,6 +1031,15 @@ def gen_C15(o, rng, tier):
                     o.end()
     for nn in range(0, 3 if tier == "quick" else 4):
         clone_from_product(o, nn)
+    # plain elements (no destructor, counting Clone): a clone still makes one call per key and value
+    for nn in (0, 1, 2, 3, 4, 6):
+        for k in range(0, nn + 1):
+            o.case(m0=nn, m1=nn, s0=nn, s1=nn, tag="p")
+            o.op("m0 clone_plain [" + ",".join(f"{c + 1}={10 * c + 3}" for c in range(k)) + "]", test=True)
+            o.op("s0 clone_plain [" + ",".join(str(c + 1) for c in range(k)) + "]", test=True)
+            if k >= 2:
+                o.op("m0 clone_plain [" + ",".join(f"{(c % (k - 1)) + 1}={10 * c + 3}" for c in range(k)) + "]", test=True)
+            o.end()
     for _ in range(40 if tier == "quick" else 400):
         nn = rng.choice([1, 2, 3, 4, 6])
         o.case(m0=nn, m1=nn, tag="r")
@@ -1170,6 +1179,9 @@ def gen_C20(o, rng, tier):
         o.case(m0=c, m1=c, s0=c, s1=c)
         o.op("m0 serde_wrong", test=True)      # wrong input type: the visitors' `expecting` text
         o.op("s0 serde_wrong", test=True)
+        for k in ((0,) if c == 0 else (0, 1, 2)):      # zero-sized elements
+            o.op(f"s0 serde_zst {k}", test=True)
+            o.op(f"m0 serde_zst {k}", test=True)
         o.end()
     for nn in range(0, n + 1):
         u = list(range(nn + 1))
